@@ -84,6 +84,7 @@ func mgReaddRace(k int, heldKind byte) string {
 	go srv.Serve(lis)
 	defer srv.Stop()
 
+	acct := &mgAcct{} // every connection acquired by the manager is released once both incarnations are removed
 	var mu sync.Mutex
 	var evs []string
 	rec := func(s string) { mu.Lock(); evs = append(evs, s); mu.Unlock() }
@@ -126,7 +127,7 @@ func mgReaddRace(k int, heldKind byte) string {
 				maybeHold()
 			}
 		},
-		ConnectionManager: &mgRaceConns{lis: lis},
+		ConnectionManager: &mgAcctCM{inner: &mgRaceConns{lis: lis}, acct: acct},
 	})
 	if err != nil {
 		return "err-new"
@@ -179,5 +180,6 @@ func mgReaddRace(k int, heldKind byte) string {
 	if !done {
 		d = "0"
 	}
-	return "acc=" + acc + " done=" + d
+	_, leak, twice, _ := acct.counts("")
+	return "acc=" + acc + " done=" + d + " leak=" + strconv.Itoa(leak) + " twice=" + strconv.Itoa(twice)
 }
